@@ -18,6 +18,8 @@ pub enum Base {
     Count(usize),
     CallOwn(usize, u32, u8),
     Arm(u32),
+    /// observe the number of live instrumented values (constructed - dropped)
+    Live,
     /// build another, independent mock from the same clauses (its original gets the next slot)
     Twin,
 }
@@ -52,14 +54,14 @@ fn obs<R>(r: std::thread::Result<R>, show: impl FnOnce(R) -> String) -> String {
 
 fn do_call(u: &Unimock, m: u32, a: u8) -> String {
     match m {
-        0 => u.m0(a).0,
-        1 => u.m1(a).0,
-        2 => u.m2(a).0,
-        3 => u.m3(a).0,
-        4 => u.m4(a).0,
-        5 => u.m5(a).0,
-        6 => <Unimock as G<u8>>::g(u, a).0,
-        7 => <Unimock as G<u16>>::g(u, a).0,
+        0 => u.m0(a).take(),
+        1 => u.m1(a).take(),
+        2 => u.m2(a).take(),
+        3 => u.m3(a).take(),
+        4 => u.m4(a).take(),
+        5 => u.m5(a).take(),
+        6 => <Unimock as G<u8>>::g(u, a).take(),
+        7 => <Unimock as G<u16>>::g(u, a).take(),
         _ => panic!("harness: no such method {m}"),
     }
 }
@@ -79,6 +81,10 @@ pub fn run_base(slots: &mut Vec<Option<Unimock>>, unwinding: bool, base: &Base) 
     let alive = |slots: &Vec<Option<Unimock>>, i: usize| i < slots.len() && slots[i].is_some();
     match *base {
         Base::Twin => unreachable!(),
+        Base::Live => {
+            use std::sync::atomic::Ordering::SeqCst;
+            format!("live:{}:{}", LIVE_VAL.load(SeqCst), LIVE_UNIQ.load(SeqCst))
+        }
         Base::Arm(n) => {
             ARMED_GLOBAL.store(n, std::sync::atomic::Ordering::SeqCst);
             "ok".into()
@@ -219,6 +225,7 @@ pub fn parse_event(tok: &str) -> Event {
         "count" => Base::Count(ix(1)),
         "callown" => Base::CallOwn(ix(1), ix(2) as u32, ix(3) as u8),
         "arm" => Base::Arm(ix(1) as u32),
+        "live" => Base::Live,
         other => panic!("bad event {other}"),
     };
     Event {
